@@ -5,6 +5,7 @@ closed), heap-free except for Box (modelled inline), relational through linear
 facts over value atoms (engine/dom.py).  Nothing here executes repository code.
 """
 import heapq
+import time
 from collections import Counter
 
 from .cfg import CFG
@@ -138,6 +139,9 @@ class Interp:
         self.memo = {}
         self.site_ids = {}
         self.debug_heads = None
+        self.gc_mark = {}
+        self.prof = {}
+        self.profn = {}
         self.debug_bb = None
         self.cache = {}
         self.runs_stack = []
@@ -1077,10 +1081,13 @@ class Interp:
                 for x, c in rn.am.items():
                     pass
                 self.runs_stack.append(run)
+                _t0 = time.time()
                 try:
                     rv, out = self._analyze(body, subst, cfid, cst, cargs, depth, run)
                 finally:
                     self.runs_stack.pop()
+                    self.prof[body.name] = self.prof.get(body.name, 0.0) + (time.time() - _t0)
+                    self.profn[body.name] = max(self.profn.get(body.name, 0), len(cst.atoms) + len(cst.facts))
                 run.ret, run.out = rv, out
                 for c, r in saved.items():
                     if r is not None:
@@ -1121,6 +1128,8 @@ class Interp:
                     continue
                 else:
                     m.store[r] = v
+            if len(m.atoms) > 1500:
+                gc_state(m, [rv] + list(args))
             return rv, m
         finally:
             self.callstack.pop()
@@ -1422,6 +1431,9 @@ class Interp:
                 return StructV(None, ops)
             if rv.agg == "array":
                 n = len(ops)
+                if rv.ty is not None and rv.ty.is_int():
+                    er = ty_range(rv.ty)
+                    ops = [IntV(o.lin, o.cond, er) if isinstance(o, IntV) and o.rng is None else o for o in ops]
                 if n <= 8:
                     return ArrV("array", const_int(n), None, tuple(ops))
                 return ArrV("array", const_int(n), _smash(st, ops, ("agg",) + key))
@@ -1443,6 +1455,8 @@ class Interp:
             return TopV()
         if k == "repeat":
             v = self.eval_operand(fr, st, rv.op, key)
+            if isinstance(v, IntV) and v.rng is None and dty is not None and dty.k == "array" and dty.elem.is_int():
+                v = IntV(v.lin, v.cond, ty_range(dty.elem))
             n = self.const_param(rv.count, fr.subst)
             if n is None:
                 return ArrV("array", IntV(self.fresh_int(st, ("rep",) + key, 0, (1 << 63) - 1)), v)
